@@ -36,6 +36,9 @@ pub enum Op {
     /// the k-th held connection finishes by a panic inside its handler future (the runtime
     /// contains it: the worker lives on, the connection is over)
     ReleasePanic { k: u16 },
+    /// a client that connects, sends its id and resets the connection at once (RST): the server
+    /// still accepts it and must hand it to the service (which then sees the error)
+    ConnectAbort { l: u16 },
     /// wait until the server has served what it must serve (bounded), then check
     Settle,
     Pause,
@@ -64,6 +67,9 @@ pub struct Case {
     /// two tokens, one service factory) for TCP
     #[serde(default)]
     pub bind_mode: u8,
+    /// service instances take 500 ms to drop while their worker thread unwinds from a panic
+    #[serde(default)]
+    pub slow_drop: bool,
 }
 
 #[derive(Clone, Copy, Debug, PartialEq, Eq)]
@@ -92,6 +98,19 @@ struct World {
     panic_next: AtomicBool,
     factory_count: AtomicUsize,
     block_ms: AtomicUsize,
+    /// every entry into Service::call (before anything is read from the stream)
+    call_count: AtomicUsize,
+    /// a service instance dropped while its worker thread unwinds takes this long to drop
+    drop_ms: AtomicUsize,
+}
+
+impl Drop for EchoSvc {
+    fn drop(&mut self) {
+        let ms = self.w.drop_ms.load(Ordering::SeqCst) as u64;
+        if ms > 0 && thread::panicking() {
+            thread::sleep(Duration::from_millis(ms));
+        }
+    }
 }
 
 struct EchoSvc {
@@ -123,6 +142,7 @@ where
     }
 
     fn call(&self, mut stream: S) -> Self::Future {
+        self.w.call_count.fetch_add(1, Ordering::SeqCst);
         if self.w.panic_next.swap(false, Ordering::SeqCst) {
             panic!("verif: service panics inside call on purpose");
         }
@@ -214,6 +234,16 @@ struct Client {
     connected_at: Instant,
     served_at: Option<Instant>,
     connected_while_paused: bool,
+    /// connected while a worker fault was being handled (after the panic, before the replacement)
+    after_fault: bool,
+    /// the connection whose service call panics
+    doomed: bool,
+}
+
+impl Client {
+    fn new(id: u32, listener: usize, sock: Sock, connected_while_paused: bool) -> Self {
+        Client { id, listener, sock, state: CState::Waiting, connected_at: Instant::now(), served_at: None, connected_while_paused, after_fault: false, doomed: false }
+    }
 }
 
 enum LAddr {
@@ -270,6 +300,8 @@ struct Run {
     backoff_until: Vec<Option<Instant>>,
     /// a worker thread is occupied by a blocking handler until then
     busy_until: Option<Instant>,
+    /// clients that reset their connection right after connecting (they are still accepted)
+    aborted: usize,
 }
 
 impl Run {
@@ -374,7 +406,7 @@ fn run_once(c: &Case, prop: Prop) -> Result<Obs, (Fail, bool)> {
     let nl = c.listeners.len().clamp(1, 2);
     let workers = c.workers.clamp(1, 3);
     let limit = if c.limit >= 12 { 12 } else { c.limit.clamp(1, 4) };
-    let w = Arc::new(World { calls: Mutex::new(vec![]), gauge: Mutex::new(HashMap::new()), over_limit: Mutex::new(None), limit, panic_next: AtomicBool::new(false), factory_count: AtomicUsize::new(0), block_ms: AtomicUsize::new(0) });
+    let w = Arc::new(World { calls: Mutex::new(vec![]), gauge: Mutex::new(HashMap::new()), over_limit: Mutex::new(None), limit, panic_next: AtomicBool::new(false), factory_count: AtomicUsize::new(0), block_ms: AtomicUsize::new(0), call_count: AtomicUsize::new(0), drop_ms: AtomicUsize::new(if c.slow_drop { 500 } else { 0 }) });
     // listeners are bound here so that their fds are known (accept-error injection is keyed by fd)
     let mut addrs = vec![];
     let mut fds = vec![];
@@ -555,6 +587,7 @@ fn run_once(c: &Case, prop: Prop) -> Result<Obs, (Fail, bool)> {
         panics: 0,
         backoff_until: vec![None; nl],
         busy_until: None,
+        aborted: 0,
     };
     match bind_mode {
         1 => r.label("registered-by-address"),
@@ -564,7 +597,8 @@ fn run_once(c: &Case, prop: Prop) -> Result<Obs, (Fail, bool)> {
     let mut next_id = 0u32;
     let mut stop_checked = false;
     for op in &c.ops {
-        if r.stopped {
+        // a finding for the property under test ends the script (each missed bound costs seconds)
+        if r.stopped || r.found.iter().any(|f| f.0 == prop) {
             break;
         }
         match *op {
@@ -586,7 +620,7 @@ fn run_once(c: &Case, prop: Prop) -> Result<Obs, (Fail, bool)> {
                         next_id += 1;
                         let _ = s.write_all(&id.to_le_bytes());
                         let paused_now = r.paused && r.pause_settled;
-                        r.clients.push(Client { id, listener: l, sock: s, state: CState::Waiting, connected_at: Instant::now(), served_at: None, connected_while_paused: paused_now });
+                        r.clients.push(Client::new(id, l, s, paused_now));
                     }
                     Err(e) => {
                         let kind = match &r.addrs[l] {
@@ -594,6 +628,25 @@ fn run_once(c: &Case, prop: Prop) -> Result<Obs, (Fail, bool)> {
                             _ => "tcp",
                         };
                         r.flag(Prop::C05, "C05/not-connectable", format!("connect to {} listener {} failed with {:?} although the server has not been stopped (paused={})", kind, l, e.kind(), r.paused), false);
+                    }
+                }
+            }
+            Op::ConnectAbort { l } => {
+                if r.paused || r.clients.len() + r.aborted >= 12 {
+                    continue;
+                }
+                let l = vcore::pick(l, nl);
+                let Some(a) = r.addrs[l].tcp() else { continue };
+                if let Ok(mut s) = std::net::TcpStream::connect_timeout(&a, BOUND) {
+                    let _ = socket2::SockRef::from(&s).set_linger(Some(Duration::ZERO));
+                    let id = next_id;
+                    next_id += 1;
+                    let _ = s.write_all(&id.to_le_bytes());
+                    drop(s); // SO_LINGER 0: RST
+                    r.aborted += 1;
+                    r.label("client-reset");
+                    if r.held() == r.workers * r.limit {
+                        r.label("client-reset-in-backlog");
                     }
                 }
             }
@@ -670,7 +723,9 @@ fn run_once(c: &Case, prop: Prop) -> Result<Obs, (Fail, bool)> {
                             let id = next_id;
                             next_id += 1;
                             let _ = s.write_all(&id.to_le_bytes());
-                            r.clients.push(Client { id, listener: 0, sock: Sock::Tcp(s), state: CState::Waiting, connected_at: Instant::now(), served_at: None, connected_while_paused: false });
+                            let mut cl = Client::new(id, 0, Sock::Tcp(s), false);
+                            cl.doomed = true;
+                            r.clients.push(cl);
                         }
                     }
                     // wait until the panic has happened
@@ -682,7 +737,28 @@ fn run_once(c: &Case, prop: Prop) -> Result<Obs, (Fail, bool)> {
                         r.panics += 1;
                         r.label("worker-panic");
                         // the connection that hit the panic is gone; connections held by that worker die with it
-                        thread::sleep(Duration::from_millis(30));
+                        thread::sleep(Duration::from_millis(50));
+                        // connections that arrive from now on must not be given to the dead worker:
+                        // one per worker, so that the rotation passes over the dead one
+                        if r.workers >= 2 {
+                            for _ in 0..r.workers {
+                                if r.clients.len() >= 12 {
+                                    break;
+                                }
+                                if let Some(a) = &r.addrs[0].tcp() {
+                                    if let Ok(mut s) = std::net::TcpStream::connect_timeout(a, BOUND) {
+                                        let _ = socket2::SockRef::from(&s).set_linger(Some(Duration::ZERO));
+                                        let id = next_id;
+                                        next_id += 1;
+                                        let _ = s.write_all(&id.to_le_bytes());
+                                        let mut cl = Client::new(id, 0, Sock::Tcp(s), false);
+                                        cl.after_fault = true;
+                                        r.clients.push(cl);
+                                    }
+                                }
+                            }
+                            r.label("connects-right-after-fault");
+                        }
                         // a replacement worker re-creates its services: exactly one instantiation per listener and fault
                         let t1 = Instant::now();
                         while r.w.factory_count.load(Ordering::SeqCst) < before + nsock && t1.elapsed() < BOUND {
@@ -695,13 +771,24 @@ fn run_once(c: &Case, prop: Prop) -> Result<Obs, (Fail, bool)> {
                                         let id = next_id;
                                         next_id += 1;
                                         let _ = s.write_all(&id.to_le_bytes());
-                                        r.clients.push(Client { id, listener: 0, sock: Sock::Tcp(s), state: CState::Waiting, connected_at: Instant::now(), served_at: None, connected_while_paused: false });
+                                        r.clients.push(Client::new(id, 0, Sock::Tcp(s), false));
                                     }
                                 }
                             }
                             r.refresh();
                         }
                         r.settle(true);
+                        // with two or more workers a live worker exists at every moment (one fault at
+                        // a time): nothing that arrived after the fault may be discarded
+                        let lost: Vec<u32> = r.clients.iter().filter(|c| c.after_fault && c.state == CState::Closed && c.served_at.is_none()).map(|c| c.id).collect();
+                        if !lost.is_empty() {
+                            let msg = format!("connections {:?} arrived after a worker had died and were discarded (closed without reaching a service) although another worker was alive", lost);
+                            r.flag(Prop::C08, "C08/lost-after-fault", msg.clone(), true);
+                            r.flag(Prop::C01, "C01/discarded", msg, true);
+                        }
+                        for c in r.clients.iter_mut() {
+                            c.after_fault = false;
+                        }
                         let now = r.w.factory_count.load(Ordering::SeqCst);
                         if now > before + nsock {
                             r.flag(Prop::C08, "C08/too-many-replacements", format!("one worker fault led to {} service instantiations ({} listening sockets)", now - before, nsock), false);
@@ -735,7 +822,9 @@ fn run_once(c: &Case, prop: Prop) -> Result<Obs, (Fail, bool)> {
                     r.busy_until = Some(Instant::now() + Duration::from_millis(ms));
                     r.label("worker-thread-busy");
                 }
-                r.clients.push(Client { id, listener: l, sock: Sock::Tcp(s), state: CState::Released, connected_at: Instant::now(), served_at: None, connected_while_paused: false });
+                let mut cl = Client::new(id, l, Sock::Tcp(s), false);
+                cl.state = CState::Released;
+                r.clients.push(cl);
             }
             Op::BackoffBusy { l } => {
                 r.refresh();
@@ -756,7 +845,7 @@ fn run_once(c: &Case, prop: Prop) -> Result<Obs, (Fail, bool)> {
                 let id = next_id;
                 next_id += 1;
                 let _ = sock.write_all(&id.to_le_bytes());
-                r.clients.push(Client { id, listener: l, sock, state: CState::Waiting, connected_at: Instant::now(), served_at: None, connected_while_paused: false });
+                r.clients.push(Client::new(id, l, sock, false));
                 r.label("inject");
                 r.label("backoff-under-load");
                 // keep the accept thread's poll busy: every resume() command is a waker event
@@ -897,8 +986,35 @@ fn run_once(c: &Case, prop: Prop) -> Result<Obs, (Fail, bool)> {
             }
         }
     }
-    if !r.stopped {
+    if !r.stopped && !r.found.iter().any(|f| f.0 == prop) {
         r.settle(false);
+    }
+    // C01 accounting: once everything held has been released, every connection made (including
+    // those the client reset) has entered Service::call exactly once
+    if !r.stopped && !r.paused && r.panics == 0 && r.busy_until.is_none() && r.aborted > 0 && !r.found.iter().any(|f| f.0 == prop) {
+        let t0 = Instant::now();
+        loop {
+            r.refresh();
+            for c in r.clients.iter_mut().filter(|c| c.state == CState::Held) {
+                let _ = c.sock.write_all(b"x");
+                c.state = CState::Released;
+            }
+            let made = r.clients.len() + r.aborted;
+            let calls = r.w.call_count.load(Ordering::SeqCst);
+            if calls >= made && r.waiting() == 0 {
+                if calls > made {
+                    r.flag(Prop::C01, "C01/called-twice", format!("{} connections were made but Service::call was entered {} times", made, calls), false);
+                }
+                break;
+            }
+            let in_backoff = r.backoff_until.iter().any(|b| b.map(|t| Instant::now() < t).unwrap_or(false));
+            if t0.elapsed() > BOUND + if in_backoff { Duration::from_millis(600) } else { Duration::ZERO } {
+                r.flag(Prop::C01, "C01/discarded", format!("{} connections were made ({} of them reset by the client right after connecting) and every slot is free, but Service::call was entered only {} times", made, r.aborted, calls), true);
+                break;
+            }
+            thread::sleep(Duration::from_millis(2));
+        }
+        r.label("accounting-with-client-resets");
     }
     // C01: exactly once, on the right listener's service
     {
@@ -1004,7 +1120,7 @@ pub mod gen {
                         ops.push(Op::Release { k });
                     }
                 }
-                Case { workers, limit: 12, listeners, shutdown_timeout_s: 1, ops, bind_mode }
+                Case { workers, limit: 12, listeners, shutdown_timeout_s: 1, ops, bind_mode, slow_drop: false }
             })
     }
 
@@ -1027,6 +1143,8 @@ pub mod gen {
         pub max_limit: usize,
         /// weight of "a handler future panics" (finishes its connection by unwinding)
         pub taskpanic: u32,
+        /// weight of "a client resets its connection right after connecting"
+        pub abort: u32,
     }
 
     pub fn strategy(p: P) -> impl Strategy<Value = Case> {
@@ -1042,6 +1160,15 @@ pub mod gen {
                 v
             }).boxed()),
         ];
+        if p.abort > 0 {
+            alts.push((p.abort, sel().prop_map(|l| vec![Op::ConnectAbort { l }]).boxed()));
+            // saturate, then resets that sit in the backlog, then free a slot
+            alts.push((p.abort, (prop::collection::vec(sel(), 3..6), sel(), sel()).prop_map(|(ls, l, k)| {
+                let mut v: Vec<Op> = ls.into_iter().map(|l| Op::Connect { l }).collect();
+                v.extend([Op::Settle, Op::ConnectAbort { l }, Op::Connect { l }, Op::Release { k }, Op::Settle]);
+                v
+            }).boxed()));
+        }
         if p.taskpanic > 0 {
             alts.push((p.taskpanic, sel().prop_map(|k| vec![Op::ReleasePanic { k }]).boxed()));
             alts.push((p.taskpanic, (prop::collection::vec(sel(), 3..7), sel()).prop_map(|(ls, k)| {
@@ -1074,8 +1201,8 @@ pub mod gen {
             Just(None).boxed()
         };
         let kinds = if p.uds { vec![LKind::Tcp, LKind::Tcp, LKind::Uds] } else { vec![LKind::Tcp] };
-        (1usize..4, 1usize..=p.max_limit, prop::collection::vec(prop::sample::select(kinds), 1..3), prop::sample::select(vec![1u64, 2]), body, stop, prop::bool::weighted(0.2), 0u8..3)
-            .prop_map(|(workers, limit, listeners, shutdown_timeout_s, body, stop, pause_before_stop, bind_mode)| {
+        (1usize..4, 1usize..=p.max_limit, prop::collection::vec(prop::sample::select(kinds), 1..3), prop::sample::select(vec![1u64, 2]), body, stop, prop::bool::weighted(0.2), 0u8..3, prop::bool::weighted(if p.panic > 0 { 0.5 } else { 0.0 }))
+            .prop_map(|(workers, limit, listeners, shutdown_timeout_s, body, stop, pause_before_stop, bind_mode, slow_drop)| {
                 let mut ops: Vec<Op> = body.into_iter().flatten().collect();
                 if let Some(s) = stop {
                     ops.push(Op::Settle);
@@ -1084,7 +1211,7 @@ pub mod gen {
                     }
                     ops.push(s);
                 }
-                Case { workers, limit, listeners, shutdown_timeout_s, ops, bind_mode }
+                Case { workers, limit, listeners, shutdown_timeout_s, ops, bind_mode, slow_drop }
             })
     }
 }
